@@ -122,6 +122,11 @@ Qed.
 Lemma dq_quote : is_quote dq = true. Proof. reflexivity. Qed.
 
 (* the text between the quotes of a placeholder *)
+Lemma placeholder_unfold k : placeholder k = [dq] ++ dec k ++ [dq].
+Proof. reflexivity. Qed.
+Lemma placeholder_len k : length (placeholder k) - 2 = length (dec k).
+Proof. rewrite placeholder_unfold, !app_length. simpl. lia. Qed.
+
 Lemma placeholder_body k : firstn (length (placeholder k) - 2) (skipn 1 (placeholder k)) = dec k.
 Proof.
   unfold placeholder. change (skipn 1 (dq :: dec k ++ [dq])) with (dec k ++ [dq]).
@@ -207,7 +212,7 @@ Lemma render_length segs tail : length segs + length segs <= length (render segs
 Proof.
   induction segs as [|[[c q] b] r IH]; [simpl; lia|].
   change (render (((c, q, b)) :: r) tail) with (c ++ render_lit q b ++ render r tail).
-  rewrite !app_length. pose proof (render_lit_length q b). simpl length. lia.
+  rewrite !app_length. pose proof (render_lit_length q b). simpl length in *. lia.
 Qed.
 
 Theorem mask_spec : forall segs tail, wf_line segs tail = true ->
@@ -244,19 +249,18 @@ Proof.
                   (skipn (length (pre ++ c) + 1)
                      (pre ++ c ++ placeholder (length front) ++ render_masked (S (length front)) r tail))
                 = dec (length front)).
-    { rewrite app_assoc, Nat.add_comm, <- skipn_skipn, skipn_pre.
-      rewrite <- placeholder_body. unfold placeholder. cbn [skipn app length].
-      rewrite <- app_assoc. rewrite firstn_app.
-      replace (S (length (dec (length front) ++ [dq])) - 2) with (length (dec (length front)))
-        by (rewrite app_length; simpl; lia).
-      rewrite firstn_all, Nat.sub_diag. simpl. rewrite app_nil_r.
-      rewrite app_length. simpl.
-      replace (S (length (dec (length front)) + 1) - 2) with (length (dec (length front))) by lia.
-      now rewrite firstn_app, firstn_all, Nat.sub_diag, app_nil_r. }
+    { rewrite placeholder_len.
+      rewrite (placeholder_unfold (length front)) at 1.
+      replace (pre ++ c ++ ([dq] ++ dec (length front) ++ [dq]) ++ render_masked (S (length front)) r tail)
+        with (((pre ++ c) ++ [dq]) ++ dec (length front) ++ [dq] ++ render_masked (S (length front)) r tail)
+        by (now rewrite <- !app_assoc).
+      replace (length (pre ++ c) + 1) with (length ((pre ++ c) ++ [dq]))
+        by (now rewrite (app_length (pre ++ c) [dq])).
+      rewrite skipn_pre. apply firstn_pre. }
     rewrite B, parse_dec.
-    assert (N : nth_error (front ++ lits ((c, q, b) :: r)) (length front) = Some (render_lit q b)).
-    { rewrite nth_error_app2, Nat.sub_diag by lia. reflexivity. }
-    rewrite N.
+    match goal with |- context [nth_error ?l ?n] =>
+      replace (nth_error l n) with (Some (render_lit q b))
+        by (symmetry; rewrite nth_error_app2, Nat.sub_diag by lia; reflexivity) end.
     destruct (K q b Hq) as (b' & P). rewrite P.
     rewrite firstn_pre2, skipn_pre3.
     rewrite <- (app_assoc pre c), skipn_pre.
@@ -267,8 +271,8 @@ Proof.
     replace (pre ++ c ++ render_lit q b' ++ render_masked (S (length front)) r tail)
       with (((pre ++ c) ++ render_lit q b') ++ render_masked (S (length front)) r tail)
       by (now rewrite <- !app_assoc).
-    replace (front ++ lits ((c, q, b) :: r)) with ((front ++ [render_lit q b]) ++ lits r)
-      by (now rewrite <- app_assoc).
+    match goal with |- unmask_loop _ _ ?L _ _ = _ =>
+      replace L with ((front ++ [render_lit q b]) ++ lits r) by (now rewrite <- app_assoc) end.
     replace (S (length front)) with (length (front ++ [render_lit q b])) by (rewrite app_length; simpl; lia).
     rewrite (IH tail fuel _ (front ++ [render_lit q b]) false) by (auto; simpl in Hf; lia).
     cbn [render_with]. rewrite P, <- !app_assoc. reflexivity.
@@ -279,7 +283,7 @@ Proof.
   revert k. induction segs as [|[[c q] b] r IH]; intros k; [simpl; lia|].
   change (render_masked k (((c, q, b)) :: r) tail) with (c ++ placeholder k ++ render_masked (S k) r tail).
   rewrite !app_length. specialize (IH (S k)). rewrite placeholder_lit.
-  pose proof (render_lit_length dq (dec k)). simpl length. lia.
+  pose proof (render_lit_length dq (dec k)). simpl length in *. lia.
 Qed.
 
 Theorem unmask_spec prep : keeps_literals prep ->
@@ -318,5 +322,110 @@ Proof.
       destruct (p || match b with d :: _ => ch_eqb d space | [] => false end) eqn:Y; simpl.
       * now rewrite Hn.
       * now rewrite E.
-    + now rewrite E, IH.
+    + simpl. now rewrite E, IH.
 Qed.
+
+Lemma quote_not_space q : is_quote q = true -> ch_eqb q space = false.
+Proof.
+  unfold is_quote. intros H. apply orb_true_iff in H as [H|H]; apply ch_eqb_eq in H; subst; reflexivity.
+Qed.
+
+Lemma nbsp_keeps nbsp : is_quote nbsp = false -> keeps_literals (nbsp_sub nbsp).
+Proof.
+  intros Hn q b Hq. exists (nbsp_from nbsp false b).
+  pose proof (quote_not_space q Hq) as Hs.
+  assert (Hnq : ch_eqb nbsp q = false).
+  { destruct (ch_eqb nbsp q) eqn:E; [|reflexivity]. apply ch_eqb_eq in E. subst. congruence. }
+  unfold nbsp_sub, render_lit. simpl nbsp_from. rewrite Hs.
+  rewrite nbsp_from_snoc by exact Hs. now rewrite nbsp_from_escape.
+Qed.
+
+Lemma id_keeps : keeps_literals (fun x => x).
+Proof. intros q b _. now exists b. Qed.
+
+Lemma render_with_id segs tail : render_with (fun x => x) segs tail = render segs tail.
+Proof. induction segs as [|[[c q] b] r IH]; simpl; [reflexivity|]. now rewrite IH. Qed.
+
+Lemma un_nbsp_app nbsp a b : un_nbsp nbsp (a ++ b) = un_nbsp nbsp a ++ un_nbsp nbsp b.
+Proof. apply map_app. Qed.
+
+Lemma un_nbsp_id nbsp x : ~ In nbsp x -> un_nbsp nbsp x = x.
+Proof.
+  induction x as [|c x IH]; simpl; intros H; [reflexivity|].
+  destruct (ch_eqb c nbsp) eqn:E.
+  - apply ch_eqb_eq in E. subst. exfalso. apply H. now left.
+  - rewrite IH; auto.
+Qed.
+
+Lemma un_nbsp_sub nbsp : ch_eqb nbsp space = false -> forall x p,
+  ~ In nbsp x -> un_nbsp nbsp (nbsp_from nbsp p x) = x.
+Proof.
+  intros Hn. induction x as [|c x IH]; intros p H; simpl; [reflexivity|].
+  assert (Hc : ch_eqb c nbsp = false).
+  { destruct (ch_eqb c nbsp) eqn:E; [|reflexivity]. apply ch_eqb_eq in E. subst. exfalso. apply H. now left. }
+  assert (Hx : ~ In nbsp x) by (intros I; apply H; now right).
+  destruct (ch_eqb c space) eqn:Es.
+  - apply ch_eqb_eq in Es.
+    destruct (p || match x with d :: _ => ch_eqb d space | [] => false end); simpl.
+    + rewrite ch_eqb_refl, IH by exact Hx. now rewrite Es.
+    + rewrite Hc, IH by exact Hx. reflexivity.
+  - simpl. rewrite Hc, IH by exact Hx. reflexivity.
+Qed.
+
+Lemma un_nbsp_render nbsp : ch_eqb nbsp space = false -> forall segs tail,
+  ~ In nbsp (render segs tail) ->
+  un_nbsp nbsp (render_with (nbsp_sub nbsp) segs tail) = render segs tail.
+Proof.
+  intros Hn. induction segs as [|[[c q] b] r IH]; intros tail H.
+  - simpl in *. now apply un_nbsp_id.
+  - change (render ((c, q, b) :: r) tail) with (c ++ render_lit q b ++ render r tail) in *.
+    change (render_with (nbsp_sub nbsp) ((c, q, b) :: r) tail)
+      with (c ++ nbsp_sub nbsp (render_lit q b) ++ render_with (nbsp_sub nbsp) r tail).
+    rewrite !un_nbsp_app. rewrite !in_app_iff in H.
+    rewrite un_nbsp_id by tauto. unfold nbsp_sub. rewrite (un_nbsp_sub nbsp Hn) by tauto. rewrite IH by tauto.
+    reflexivity.
+Qed.
+
+(* Every literal of a statement -- whatever its body, whatever the number of literals -- is cut out
+   and put back verbatim (prep = identity: bind names), or verbatim up to the NBSP substitution
+   (initial values), which reading NBSP as a blank undoes. *)
+Theorem mask_roundtrip : forall nbsp segs tail,
+  is_quote nbsp = false -> wf_line segs tail = true ->
+  exists m strs,
+    mask (render segs tail) = Some (m, strs) /\
+    unmask_in (fun x => x) strs m = Some (render segs tail) /\
+    unmask_in (nbsp_sub nbsp) strs m = Some (render_with (nbsp_sub nbsp) segs tail) /\
+    (ch_eqb nbsp space = false -> ~ In nbsp (render segs tail) ->
+     un_nbsp nbsp (render_with (nbsp_sub nbsp) segs tail) = render segs tail).
+Proof.
+  intros nbsp segs tail Hn Hw. exists (render_masked 0 segs tail), (lits segs).
+  split; [now apply mask_spec|]. split.
+  - rewrite (unmask_spec _ id_keeps) by exact Hw. now rewrite render_with_id.
+  - split; [apply unmask_spec; auto using nbsp_keeps|]. intros Hs Hi. now apply un_nbsp_render.
+Qed.
+
+(* the literals may be re-inserted into any other text that carries the same placeholders
+   (FORD removes blanks and spaces commas in the initial value before re-inserting) *)
+Corollary unmask_any_code : forall prep segs segs' tail',
+  keeps_literals prep -> lits segs' = lits segs -> wf_line segs' tail' = true ->
+  unmask_in prep (lits segs) (render_masked 0 segs' tail') = Some (render_with prep segs' tail').
+Proof. intros prep segs segs' tail' K E W. rewrite <- E. now apply unmask_spec. Qed.
+
+Definition tilde_c : ascii := "~"%char.
+Example mask_roundtrip_nonvacuous :
+  let segs := [(s "character(len=*), parameter :: v = ", dq, s "a  b \ <i> & 'q' ""d"" ");
+               (s " // ", sq, s "it's </b>   x"); (s "//", sq, [])] in
+  wf_line segs (s " ! end") = true /\
+  is_quote tilde_c = false /\ ~ In tilde_c (render segs (s " ! end")) /\
+  option_map snd (mask (render segs (s " ! end")))
+    = Some [s """a  b \ <i> & 'q' """"d"""" """; s "'it''s </b>   x'"; s "''"] /\
+  render_with (nbsp_sub tilde_c) segs [] =
+    s "character(len=*), parameter :: v = ""a~~b \ <i> & 'q' """"d"""" "" // 'it''s </b>~~~x'//''".
+Proof. vm_compute. repeat split; try reflexivity. intros H. repeat (destruct H as [H|H]; [discriminate H|]). exact H. Qed.
+
+(* a statement the hypotheses exclude: an unterminated quote before a literal is paired with the
+   placeholder's opening quote, and the index is then read from the wrong place *)
+Example mask_needs_wellformed :
+  mask (s """ 'abc'") = Some (s """ ""0""", [s "'abc'"]) /\
+  unmask_in (fun x => x) [s "'abc'"] (s """ ""0""") = None.
+Proof. vm_compute. auto. Qed.
